@@ -20,7 +20,7 @@ ASSUMPTIONS = ['the structural part (where a name can hide) is a generated finit
 BOUNDS = {'quick': 'universe of 3 default + 1 user function (all membership combinations); 60+ cheating formulas x 2 credit levels; spaces at every gap of two forbidden strings',
           'thorough': 'same (the catalogue is exhausted in the quick tier), samples=3'}
 OUTSIDE = ['cheating constructions outside the catalogue', 'IntegralGrader']
-DEADLINE = {'quick': 150, 'thorough': 900}
+DEADLINE = {'quick': 600, 'thorough': 900}
 FUNCS = ['math_helpers.get_permitted_functions', 'validate_only_permitted_functions_used', 'validate_required_functions_used', 'validate_forbidden_strings_not_used',
          'MathMixin.check_math_response/post_eval_validation', 'FormulaGrader.gen_evaluations (instructor/sibling scrubbing)', 'MathExpression.check_scope',
          'SumGrader.gen_evaluations', 'ListGrader.get_ordered_input_list (siblings)']
